@@ -99,3 +99,11 @@ Theorem C06_fit_spline_meets_contract : forall (tryfit : piece pt -> list pt -> 
   fit_ok (fun path _ => fit_spline tryfit maxerr tangent ctrl0 fuel path t0 t0).
 Proof. intros. apply fit_spline_fit_ok. assumption. Qed.
 Print Assumptions C06_fit_spline_meets_contract.
+
+(* ---------- with the OTHER ordering option, autog.OrderingNoop (Model/PipelineNoop.v: [layout_n bk] is Layout with the
+   bands kept in the order of the layering, every positioner; Proofs/NoopPipeline*.v) ---------- *)
+From Autog Require Import PipelineNoop NoopPipeline NoopPipeline2.
+Theorem C06_component_end_to_end_noop_ordering : forall bk o g g' x, component_input g -> modelled_p5 (o_p5 o) ->
+  layout_component_n bk o g = Ok (g', x) -> E4_statement (o_p5 o) (o_layer_spacing o) g g'.
+Proof. exact Gn4_route_shape_any. Qed.
+Print Assumptions C06_component_end_to_end_noop_ordering.
